@@ -222,6 +222,17 @@ class C05(PropBase):
 
     def gen_one(self, rng, i):
         profile = "mixed"
+        if i % 8 == 3:
+            # the GC's own position records cross a file end (several empty queues, cursor a few dozen bytes before
+            # the end of the file), then a restart and calls on every queue: existence and positions must survive
+            import props2
+            a = props2.aimed_gc_base(rng, 2, self.policies, self.stats)
+            if a is not None:
+                cmds = list(a.cmds) + ["drop", "open af"]
+                for n in a.names:
+                    cmds += ["append %s - 4:70" % n, "range %s u u" % n]
+                cmds += ["drop", "open af"] + ["range %s u u" % n for n in a.names]
+                return cmds
         g = HistGen(rng, policy=rng.choice(self.policies), max_payload=30000 if i % 3 else 70000)
         cmds_out = []
         g.run(rng.randrange(6, 40), weights={"create": 8, "delete": 5, "append": 50, "truncate": 28, "persist": 2, "restart": 3})
